@@ -551,7 +551,7 @@ func zzHs13Judge(sc *zzA13Scenario) {
 //symgo:entry covers=accepted_authenticated,accepted_without_certificate,rejected_required_missing,rejected_bad_signature,rejected_bad_chain,rejected_bad_finished,rejected_callback,rejected_certificate_without_verify,rejected_verify_without_certificate,incomplete_flight
 func zzHs13ClientFlight() {
 	callbacks := zzsymChoice("callbacks", 2) == 1
-	sc := zzA13Build(true, false, callbacks)
+	sc := zzA13Build(true, zzsymChoice("server_sets_insecure_skip_verify", 2) == 1, callbacks) // InsecureSkipVerify is a client option: it must not switch off a server's ClientCAs check
 	switch zzsymChoice("cert", 3) {
 	case 1:
 		zzA13Push(sc, zzA13CertEmpty)
